@@ -36,11 +36,15 @@ def root_tbs(now, name="root-ca.test", chain=2, psids="all", dur=("years", 10), 
             "verifyKeyIndicator": ("verificationKey", ("ecdsaNistP256", ("fill", None)))}
 
 
-def aa_tbs(now, psids=(PSID_CAM, PSID_DENM, PSID_VAM), name="aa.test", chain=1, dur=("years", 10)):
+def aa_tbs(now, psids=(PSID_CAM, PSID_DENM, PSID_VAM), name="aa.test", chain=1, dur=("years", 10), app_psids=None):
     sp = ("all", None) if psids == "all" else ("explicit", [{"psid": p} for p in psids])
-    return {"id": ("name", name), "cracaId": CRACA, "crlSeries": 0, "validityPeriod": {"start": t32(now) - 1000, "duration": dur},
-            "certIssuePermissions": [{"subjectPermissions": sp, "minChainLength": chain, "chainLengthRange": 0, "eeType": (b"\x00", 1)}],
-            "verifyKeyIndicator": ("verificationKey", ("ecdsaNistP256", ("fill", None)))}
+    d = {"id": ("name", name), "cracaId": CRACA, "crlSeries": 0, "validityPeriod": {"start": t32(now) - 1000, "duration": dur},
+         "certIssuePermissions": [{"subjectPermissions": sp, "minChainLength": chain, "chainLengthRange": 0, "eeType": (b"\x00", 1)}],
+         "verifyKeyIndicator": ("verificationKey", ("ecdsaNistP256", ("fill", None)))}
+    if app_psids:
+        # an authority that also holds application permissions of its own (e.g. for its own CRL/CTL service messages)
+        d["appPermissions"] = [{"psid": p} for p in app_psids]
+    return d
 
 
 def at_tbs(now, psids=(PSID_CAM, PSID_DENM, PSID_VAM), start=None, dur=("years", 10)):
@@ -53,13 +57,23 @@ def at_tbs(now, psids=(PSID_CAM, PSID_DENM, PSID_VAM), start=None, dur=("years",
 class PKI:
     """root -> aa -> n ATs, all keys in one backend (the issuing authority's view)."""
 
-    def __init__(self, now, n_at=2, aa_psids=(PSID_CAM, PSID_DENM, PSID_VAM, 99), at_psids=(PSID_CAM, PSID_DENM, PSID_VAM, 99), name="good"):
+    def __init__(self, now, n_at=2, aa_psids=(PSID_CAM, PSID_DENM, PSID_VAM, 99), at_psids=(PSID_CAM, PSID_DENM, PSID_VAM, 99), name="good",
+                 root_psids="all", aa_app_psids=None, root_groups=None, handmade_aa=False):
         self.backend = PythonECDSABackend()
         self.now = now
-        self.root = OwnCertificate.initialize_certificate(self.backend, root_tbs(now, f"root.{name}"), None)
-        self.aa = OwnCertificate.initialize_certificate(self.backend, aa_tbs(now, aa_psids, f"aa.{name}"), self.root)
+        self.root = OwnCertificate.initialize_certificate(self.backend, root_tbs(now, f"root.{name}", psids=root_psids, groups=root_groups), None)
+        if handmade_aa:
+            # the AA certificate is put together here (shell for the key, issuer digest and signature by the root key) so that
+            # its content is exactly what was asked for, whatever the issuing API of the code under test would make of it
+            shell = OwnCertificate.initialize_certificate(self.backend, aa_tbs(now, aa_psids, f"aa.{name}", app_psids=aa_app_psids), None)
+            d = copy.deepcopy(shell.certificate)
+            d["issuer"] = ("sha256AndDigest", self.root.as_hashedid8())
+            self.aa = OwnCertificate(certificate=resign(d, self.backend, self.root.key_id), issuer=self.root, key_id=shell.key_id)
+        else:
+            self.aa = OwnCertificate.initialize_certificate(self.backend, aa_tbs(now, aa_psids, f"aa.{name}", app_psids=aa_app_psids), self.root)
         self.ats = [OwnCertificate.initialize_certificate(self.backend, at_tbs(now, at_psids), self.aa) for _ in range(n_at)]
-        assert self.root.verify(self.backend) and self.aa.verify(self.backend) and all(a.verify(self.backend) for a in self.ats)
+        if not handmade_aa:
+            assert self.root.verify(self.backend) and self.aa.verify(self.backend) and all(a.verify(self.backend) for a in self.ats)
 
     def new_at(self, psids=(PSID_CAM, PSID_DENM, PSID_VAM), start=None, dur=("years", 10)):
         at = OwnCertificate.initialize_certificate(self.backend, at_tbs(self.now, psids, start, dur), self.aa)
